@@ -13,6 +13,7 @@ package main
 
 import (
 	"bufio"
+	"bytes"
 	"fmt"
 	"hash/fnv"
 	"math/big"
@@ -47,15 +48,33 @@ var (
 
 // emit runs one script line of case k on the real VM (twice) and records it.
 func emit(k int, c *vcase) vres {
+	// the op line (what the specification gets) and a private copy of every script are taken BEFORE the real VM
+	// sees the script bytes: both runs execute the very same byte slices (as a node executes a cached contract
+	// script again and again), and nothing may have written into them afterwards
+	op := c.opLine()
+	before := [][]byte{append([]byte{}, c.script...)}
+	for _, p := range c.pre {
+		before = append(before, append([]byte{}, p.script...))
+	}
 	trace = true
 	r1 := execReal(c)
 	trace = false
 	r2 := execReal(c)
 	if r1.obs != r2.obs || r1.gas != r2.gas {
-		o.Fail("nondeterministic", k, "two runs differ: %q vs %q (%s)", r1.obs, r2.obs, c.opLine())
+		o.Fail("nondeterministic", k, "two runs of the same script bytes differ: %q vs %q (%s)", r1.obs, r2.obs, op)
+	}
+	if !bytes.Equal(before[0], c.script) {
+		o.Fail("script-self-modified", k, "the VM wrote into the script: %s -> %s (%s)", hexs(before[0]), hexs(c.script), op)
+		copy(c.script, before[0])
+	}
+	for i, p := range c.pre {
+		if !bytes.Equal(before[i+1], p.script) {
+			o.Fail("script-self-modified", k, "the VM wrote into a loaded script: %s -> %s (%s)", hexs(before[i+1]), hexs(p.script), op)
+			copy(p.script, before[i+1])
+		}
 	}
 	if r1.panicd {
-		o.Fail("panic-escapes-run", k, "%s", c.opLine())
+		o.Fail("panic-escapes-run", k, "%s", op)
 	}
 	if r1.halt {
 		if bad := allInRange(r1.stack); bad != "" {
@@ -70,7 +89,6 @@ func emit(k int, c *vcase) vres {
 			o.Count("result:cyclic")
 		}
 	}
-	op := c.opLine()
 	pipe.send(lineRec{k: k, family: c.family, op: op, obs: r1.obs, refs: r1.refs, halt: r1.halt, fault: r1.fault})
 	switch {
 	case r1.halt:
@@ -107,7 +125,7 @@ func main() {
 	defer o.Close()
 	pipe = startSpecPipe()
 
-	corpus := append(append(buildCorpus(), multiCorpus()...), budgetCorpus()...)
+	corpus := append(append(append(buildCorpus(), multiCorpus()...), budgetCorpus()...), aliasCorpus()...)
 	// the coverage matrix follows the hand-written corpus (cases nCorpus .. nCorpus+len(matrix)-1)
 	nCorpus := len(corpus)
 	matrix := buildMatrix()
@@ -202,12 +220,15 @@ func main() {
 			case w < 80:
 				c = g.seqCase(r.Range(4, 14))
 				o.Count("gen:seq-long")
-			case w < 90:
+			case w < 89:
 				c = g.ctlCase()
 				o.Count("gen:control")
-			case w < 93:
+			case w < 91:
 				c = g.multiCase()
 				o.Count("gen:multi-script")
+			case w < 93:
+				c = g.aliasCase()
+				o.Count("gen:alias")
 			case w < 97:
 				c = g.mutate(g.ctlCase())
 				o.Count("gen:control-mutated")
